@@ -19,7 +19,11 @@ containers' geometry helpers.
 
 Sizes grow from the tree's own needs: ``plan`` computes for every node the columns it needs (leaf
 minimum widths, margins, dividers, weights) and an upper bound of the rows it needs at that width, all
-``given`` sizes inside the tree are ``need + extra``, the root size is ``need + (dc, dr)``.  The **fit
+``given`` sizes inside the tree are ``need + extra``, the root size is ``need + (dc, dr)``.  Padding / Filler /
+Overlay also take their ``min_width`` / ``min_height`` option (spec ``"mw"`` / ``"mh"``: absent, 0, or the child's
+need - 1 .. + 4): with a relative share the child gets ``max(share, minimum)`` and the fixed margins give way to
+it, so a minimum that covers the child's need makes the child's need the need of the decoration - the sizes then
+run through "margins gone", "minimum wins over part of the margins" and "margins intact".  The **fit
 precondition** is then verified on the render: every probe was rendered, its attribute covers a full
 rectangle of exactly the size of the canvas the probe returned; otherwise the case is discarded.
 One reading of the precondition is made explicit for the ListBox, the one container built to show only part
@@ -112,7 +116,10 @@ RULE = (
     "of Pile/Columns/GridFlow/Frame/Filler/Padding/Overlay/BoxAdapter/LineBox/AttrMap/ListBox built type-directed by "
     "sizing mode (flow or box root) over probe leaves (Edit with caption/newlines/wide characters/any,space,clip wrap, "
     "SelectableIcon incl. cursor beyond the text, Button, CheckBox, RadioButton, Text, SolidFill); item options "
-    "weight 1..3 / given need+0..3 / pack, dividechars 0..2, margins 0..2, every alignment, relative sizes 30..100%, "
+    "weight 1..3 / given need+0..3 / pack, dividechars 0..2, margins 0..2, every alignment, relative sizes 30..100% "
+    "(100, the default, drawn often), min_width / min_height of Padding / Filler / Overlay absent, 0 or the child's "
+    "need -1..+4 (a minimum that covers the child's need makes that need the need of the decoration: its fixed "
+    "margins give way), "
     "explicit or default focus positions; a ListBox gets 0..5 rows less than its items need together (never less "
     "than its tallest item), so it scrolls.  The size is the tree's computed need plus 0..6 columns and 0..4 rows; a "
     "render in which some probe is missing, clipped or not a full rectangle is discarded (fit precondition; ListBox "
@@ -130,7 +137,10 @@ RULE = (
     "(fit re-verified; a step that un-fits the tree ends the history) and the state-free mouse sweep is repeated on "
     "the final state.  Deterministic sweep before the campaign: 8 small trees (Pile, Columns, GridFlow, Frame, two "
     "scrolling ListBoxes, Padding, Overlay over 1- and 2-row Edits; bare and in a LineBox; flow and box root) x "
-    "every setter spelling x 6 values x two calls x the 4 orders.  Non-trivial: >=2 nested "
+    "every setter spelling x 6 values x two calls x the 4 orders; and Padding (flow and box) / Filler / Overlay "
+    "(either axis) over a two-row Edit x relative share 100 / 60 % x every pair of fixed margins x minimum size = "
+    "need +0 / +2 x left, center, right, ('relative', 30) x every size from the child's bare need to +6 columns / +4 "
+    "rows (3664 cases).  Non-trivial: >=2 nested "
     "container/decoration levels and a non-zero offset (second child, divider, margin/alignment, header, border, "
     "overlay)."
 )
@@ -143,6 +153,9 @@ ASSUMPTIONS = [
     "leaf rows()/pack() do not depend on focus or cursor position (Edit, SelectableIcon, Text, Button, CheckBox)",
     "a case during which urwid emits one of its sizing warnings is mis-built and discarded",
     "utf-8 encoding, default command_map",
+    "min_width / min_height: calculate_left_right_padding / calculate_top_bottom_filler give the wrapped widget "
+    "max(share, minimum) and shrink the fixed margins to make room (their documented contract, read only to compute "
+    "a size at which the tree fits; whether it does fit is decided on the drawing as for every other case)",
     "history steps use only public setters (Edit.set_edit_text/set_caption/set_edit_pos, Text.set_text, "
     "Button/CheckBox.set_label, focus_position and its deprecated spellings, ListBox.set_focus/set_focus_valign, "
     "Padding.align, Overlay.set_overlay_parameters), mouse_event and keypress on the root; an exception escaping "
@@ -348,6 +361,16 @@ def _dim(d):
     return "g", _int(d[1] if len(d) > 1 else 0, 0, 3)
 
 
+def _min(m, need):
+    """min_width / min_height option of Padding / Filler / Overlay: None | 'z' (0: falsy, as good as None) | e
+    (the child's need + e, e in -1..4; not below 1)"""
+    if m is None:
+        return None
+    if m == "z":
+        return 0
+    return max(1, need + _int(m, -1, 4))
+
+
 class Planner:
     """spec -> node.  A node is plain data: kind, mode, nc (columns needed), nr (rows needed, an upper
     bound for flow nodes), mv (every widget from here down the move path implements move_cursor_to_coords
@@ -520,9 +543,16 @@ class Planner:
                 height = need = kid["nr"] + amt
             else:
                 height, need = ["relative", amt], _ceil_div(kid["nr"] * 100, amt) + 1
+        # min_height (used with a relative height only, the constructor drops it otherwise): the body gets
+        # max(share, min_height) rows and the fixed top / bottom rows give way to it, so a min_height that covers
+        # the body's need makes the body's need the need of the Filler
+        minh = _min(spec.get("mh"), kid["nr"])
+        total = need + top + bottom
+        if isinstance(height, list) and minh is not None and minh >= kid["nr"]:
+            total = kid["nr"]
         return {
-            "k": "filler", "mode": "B", "kids": [kid], "height": height, "top": top, "bottom": bottom,
-            "va": self._valign(spec.get("va", 0)), "nc": kid["nc"], "nr": need + top + bottom,
+            "k": "filler", "mode": "B", "kids": [kid], "height": height, "top": top, "bottom": bottom, "minh": minh,
+            "va": self._valign(spec.get("va", 0)), "nc": kid["nc"], "nr": total,
         }
 
     @staticmethod
@@ -549,9 +579,16 @@ class Planner:
             width = need = kid["nc"] + amt
         else:
             width, need = ["relative", amt], _ceil_div(kid["nc"] * 100, amt) + 1
+        # min_width: with a relative width the child gets max(share, min_width) columns and the fixed left / right
+        # columns give way to it (calculate_left_right_padding's contract), so a min_width that covers the child's
+        # need makes the child's need the need of the Padding; with a given / pack width it changes nothing
+        minw = _min(spec.get("mw"), kid["nc"])
+        total = need + left + right
+        if isinstance(width, list) and minw is not None and minw >= kid["nc"]:
+            total = kid["nc"]
         return {
-            "k": "pad", "mode": mode, "kids": [kid], "width": width, "left": left, "right": right,
-            "al": self._align(spec.get("al", 0)), "nc": need + left + right, "nr": kid["nr"],
+            "k": "pad", "mode": mode, "kids": [kid], "width": width, "left": left, "right": right, "minw": minw,
+            "al": self._align(spec.get("al", 0)), "nc": total, "nr": kid["nr"],
         }
 
     def _p_over(self, spec, mode):
@@ -573,10 +610,17 @@ class Planner:
             width = wneed = top["nc"] + (wamt if whow == "g" else 0)
         ml, mr = _int(spec.get("l", 0), 0, 2), _int(spec.get("r", 0), 0, 2)
         mt, mb = _int(spec.get("t", 0), 0, 2), _int(spec.get("b", 0), 0, 2)
+        # min_width / min_height: as for Padding / Filler (same helpers), with a relative width / height
+        minw, minh = _min(spec.get("mw"), top["nc"]), _min(spec.get("mh"), top["nr"])
+        nc, nr = wneed + ml + mr, hneed + mt + mb
+        if isinstance(width, list) and minw is not None and minw >= top["nc"]:
+            nc = top["nc"]
+        if isinstance(height, list) and minh is not None and minh >= top["nr"]:
+            nr = top["nr"]
         return {
             "k": "over", "mode": "B", "kids": [top], "bg": bool(spec.get("bg", 0)), "width": width, "height": height,
-            "al": self._align(spec.get("al", 1)), "va": self._valign(spec.get("va", 1)),
-            "ml": ml, "mr": mr, "mt": mt, "mb": mb, "nc": wneed + ml + mr, "nr": hneed + mt + mb,
+            "al": self._align(spec.get("al", 1)), "va": self._valign(spec.get("va", 1)), "minw": minw, "minh": minh,
+            "ml": ml, "mr": mr, "mt": mt, "mb": mb, "nc": nc, "nr": nr,
         }
 
     def _p_box(self, spec, mode):
@@ -668,9 +712,13 @@ def _build(node, reg, bg, mv, anc, fixes):
         ftr = next(it) if node["ftr"] else None
         return urwid.Frame(body, hdr, ftr, focus_part=node["fp"])
     if k == "filler":
-        return (FixedFiller if "filler-move" in fixes else urwid.Filler)(ws[0], valign=_t(node["va"]), height=_t(node["height"]), top=node["top"], bottom=node["bottom"])
+        return (FixedFiller if "filler-move" in fixes else urwid.Filler)(
+            ws[0], valign=_t(node["va"]), height=_t(node["height"]), min_height=node.get("minh"), top=node["top"], bottom=node["bottom"]
+        )
     if k == "pad":
-        return urwid.Padding(ws[0], align=_t(node["al"]), width=_t(node["width"]), left=node["left"], right=node["right"])
+        return urwid.Padding(
+            ws[0], align=_t(node["al"]), width=_t(node["width"]), min_width=node.get("minw"), left=node["left"], right=node["right"]
+        )
     if k == "over":
         if node["bg"] and reg is not None:
             bottom = build({"k": "fill", "mode": "B", "leaf": {"k": "fill"}, "nc": 1, "nr": 1, "kids": []}, reg, True, False)
@@ -678,6 +726,7 @@ def _build(node, reg, bg, mv, anc, fixes):
             bottom = urwid.SolidFill(".")
         return (FixedOverlay if "overlay-cursor" in fixes else urwid.Overlay)(
             ws[0], bottom, _t(node["al"]), _t(node["width"]), _t(node["va"]), _t(node["height"]),
+            min_width=node.get("minw"), min_height=node.get("minh"),
             left=node["ml"], right=node["mr"], top=node["mt"], bottom=node["mb"],
         )
     if k == "box":
@@ -997,6 +1046,29 @@ class Harness:
                 return False
         return True
 
+    @staticmethod
+    def min_stats(reg):
+        """evidence only: how often a min_width / min_height was in force in a fitting first drawing, and how often
+        it took columns / rows from the fixed margins (child drawn larger than the holder minus its margins)"""
+        dims = {}
+        for e in reg.log:
+            if e[0] == "crender":
+                dims[id(reg.conts[e[1]]["node"])] = (e[3], e[4])
+            elif e[0] == "render":
+                dims[id(reg.probes[e[1]]["node"])] = (e[4], e[5])
+        for c in reg.conts:
+            node = c["node"]
+            have, kid = dims.get(id(node)), dims.get(id(node["kids"][0])) if node["kids"] else None
+            if have is None or kid is None:
+                continue
+            for axis, key, dim, margins in ((0, "minw", "width", ("left", "right", "ml", "mr")), (1, "minh", "height", ("top", "bottom", "mt", "mb"))):
+                if node["k"] not in ("pad", "filler", "over") or node.get(key) is None or not isinstance(node.get(dim), list):
+                    continue
+                fixed = sum(node.get(m, 0) for m in margins)
+                stat(f"min:{node['k']}:{key}:in-force")
+                if fixed and kid[axis] > have[axis] - fixed:
+                    stat(f"min:{node['k']}:{key}:margins-gave-way")
+
     def draw(self, root, reg, count=True):
         try:
             return self.draw_raw(root, reg, count)
@@ -1199,6 +1271,7 @@ class Harness:
             raise Skip() from rf
         if self.collect is None:
             stat("fit")
+            self.min_stats(reg)
         if not hasattr(root, "get_cursor_coords"):
             stat("cursor:root-without-protocol")
         for v in found:
@@ -1477,7 +1550,7 @@ class Harness:
                 (
                     f"set_overlay_parameters({al!r}, <width>, {va!r}, <height>, <margins>)",
                     lambda: w.set_overlay_parameters(
-                        al, _t(node["width"]), va, _t(node["height"]),
+                        al, _t(node["width"]), va, _t(node["height"]), node.get("minw"), node.get("minh"),
                         left=node["ml"], right=node["mr"], top=node["mt"], bottom=node["mb"],
                     ),
                 )
@@ -1530,7 +1603,10 @@ _flow_leaf = st.one_of(_edit, _edit, _edit, _icon, _btn, _text)
 _w = st.integers(1, 3).map(lambda n: ["w", n])
 _g = st.integers(0, 3).map(lambda n: ["g", n])
 _k = st.just(["k"])
-_rel = st.integers(30, 100).map(lambda n: ["r", n])
+# relative share: 100 is the default of Padding (and what "fill the parent" is written as), so it is drawn often
+_rel = st.one_of(st.integers(30, 100), st.sampled_from([100, 100, 50])).map(lambda n: ["r", n])
+# min_width / min_height: absent, 0 (falsy but a valid int), or the child's need - 1 .. + 4
+_min_opt = st.sampled_from([None, None, None, "z", -1, 0, 0, 1, 2, 4])
 _focus = st.one_of(st.none(), st.none(), st.integers(0, 3))
 _margin = st.sampled_from([0, 0, 1, 2])
 _align = st.one_of(st.integers(0, 2), st.integers(0, 100).map(lambda n: ["r", n]))
@@ -1569,7 +1645,7 @@ def flow_node(depth):
         }
     )
     pad = st.fixed_dictionaries(
-        {"k": st.just("pad"), "n": fl, "w": st.one_of(_g, _g, _rel, _k), "al": _align, "l": _margin, "r": _margin}
+        {"k": st.just("pad"), "n": fl, "w": st.one_of(_g, _rel, _rel, _k), "mw": _min_opt, "al": _align, "l": _margin, "r": _margin}
     )
     box = st.fixed_dictionaries({"k": st.just("box"), "n": bx, "x": st.integers(0, 3)})
     return st.one_of(_flow_leaf, pile, cols, cols, grid, pad, box, _line(fl), _attr(fl))
@@ -1621,19 +1697,19 @@ def box_node(depth):
     filler = st.one_of(
         st.fixed_dictionaries({"k": st.just("filler"), "n": fl, "h": _k, "va": _align, "t": _margin, "b": _margin}),
         st.fixed_dictionaries(
-            {"k": st.just("filler"), "n": bx, "h": st.one_of(_g, _rel), "va": _align, "t": _margin, "b": _margin}
+            {"k": st.just("filler"), "n": bx, "h": st.one_of(_g, _rel), "mh": _min_opt, "va": _align, "t": _margin, "b": _margin}
         ),
     )
     pad = st.fixed_dictionaries(
-        {"k": st.just("pad"), "n": bx, "w": st.one_of(_g, _g, _rel), "al": _align, "l": _margin, "r": _margin}
+        {"k": st.just("pad"), "n": bx, "w": st.one_of(_g, _rel, _rel), "mw": _min_opt, "al": _align, "l": _margin, "r": _margin}
     )
     over_common = {
-        "k": st.just("over"), "bg": st.integers(0, 1), "al": _align, "va": _align, "w": st.one_of(_g, _rel),
+        "k": st.just("over"), "bg": st.integers(0, 1), "al": _align, "va": _align, "w": st.one_of(_g, _rel), "mw": _min_opt,
         "l": _margin, "r": _margin, "t": _margin, "b": _margin,
     }
     over = st.one_of(
         st.fixed_dictionaries({"top": fl, "h": _k, **over_common}),
-        st.fixed_dictionaries({"top": bx, "h": st.one_of(_g, _rel), **over_common}),
+        st.fixed_dictionaries({"top": bx, "h": st.one_of(_g, _rel), "mh": _min_opt, **over_common}),
     )
     lb = st.fixed_dictionaries(
         {
@@ -1699,6 +1775,15 @@ def _kinds(spec, out):
     return out
 
 
+def _min_options(spec, out):
+    for key, name in (("mw", "min_width"), ("mh", "min_height")):
+        if spec.get(key) is not None:
+            out.add(f"{name}={'0' if spec[key] == 'z' else 'need%+d' % _int(spec[key], -1, 4)}")
+    for k in _children(spec):
+        _min_options(k, out)
+    return out
+
+
 def _has_offset(spec):
     k = spec.get("k")
     if k in ("pile", "cols", "grid", "lb") and len(spec.get("c") or []) >= 2:
@@ -1721,6 +1806,7 @@ def nontrivial(case):
 def classify(case):
     out = [f"root:{case['mode']}:{case['tree'].get('k')}", f"levels:{_levels(case['tree'])}"]
     out += [f"has:{k}" for k in sorted(_kinds(case["tree"], set()))]
+    out += [f"opt:{o}" for o in sorted(_min_options(case["tree"], set()))]
     ops = [op[0] for op in case.get("ops") or []] + ["click"] * len(case.get("clicks") or [])
     out.append(f"steps:{len(ops)}")
     out += [f"step:{k}" for k in sorted(set(ops))]
@@ -1770,9 +1856,44 @@ def setter_cases():
                             }
 
 
+def min_size_cases():
+    """every decoration that shares out space with fixed margins and a minimum size (Padding: left / right /
+    min_width; Filler: top / bottom / min_height; Overlay: both) over a two-row Edit, relative share 100 % (the
+    default) and 60 %, x every pair of margins x min = the child's need + 0 / + 2 x every alignment (the three names
+    and ('relative', 30)) x every size from the child's bare need upwards (+0..6 columns, +0..4 rows): the whole
+    range from "margins gone, child fills the widget" over "min size wins over part of the margins" to "margins
+    intact, share above the minimum".  Flow and box root for the Padding."""
+    edit = _e("b", "c\n", 1)
+    boxed = {"k": "filler", "n": edit, "h": ["k"], "va": 0, "t": 0, "b": 0}
+    for pct in (100, 60):
+        for extra in (0, 2):
+            for al in (0, 1, 2, ["r", 30]):
+                for m0 in range(3):
+                    for m1 in range(3):
+                        for d in range(7):
+                            ev = (d + m0) % len(EVENTS)
+                            base = {"dc": d, "dr": d % 3, "ev": ev, "ops": [], "ord": 0}
+                            pad = {"k": "pad", "n": edit, "w": ["r", pct], "mw": extra, "al": al, "l": m0, "r": m1}
+                            yield {"tree": pad, "mode": "F", **base}
+                            yield {"tree": {**pad, "n": boxed}, "mode": "B", **base}
+                            over = {"k": "over", "top": edit, "h": ["k"], "bg": d % 2, "al": al, "va": 1, "w": ["r", pct], "mw": extra, "l": m0, "r": m1, "t": 0, "b": 1}
+                            yield {"tree": over, "mode": "B", **base}
+                            if d > 4 or m0 > 1 or m1 > 1:
+                                continue  # rows: the root gets +0..4, so margins 0..1 cover the whole range
+                            base = {"dc": d % 3, "dr": d, "ev": ev, "ops": [], "ord": 0}
+                            yield {"tree": {"k": "filler", "n": boxed, "h": ["r", pct], "mh": extra, "va": al, "t": m0, "b": m1}, "mode": "B", **base}
+                            yield {
+                                "tree": {"k": "over", "top": boxed, "h": ["r", pct], "mh": extra, "bg": d % 2, "al": 1, "va": al, "w": ["g", 1], "l": 1, "r": 0, "t": m0, "b": m1},
+                                "mode": "B", **base,
+                            }
+
+
 def shard(ctx):
     depth = ctx.scale(3, 4)
     ctx.sweep("tree", setter_cases(), nontrivial=nontrivial, classify=classify, exhaustive_name="setter spellings x orders")
+    if ctx.failure:
+        return
+    ctx.sweep("tree", min_size_cases(), nontrivial=nontrivial, classify=classify, exhaustive_name="margins x minimum size x alignment x size")
     if ctx.failure:
         return
     ctx.given("tree", case_strategy(depth), ctx.scale(400, 4000), nontrivial=nontrivial, classify=classify)
